@@ -56,6 +56,9 @@ def main():
         i = args.index("--jobs")
         jobs = int(args[i + 1])
         del args[i:i + 2]
+    unknown = [a for a in args if a.startswith("-") and a != "--no-tests"]
+    if unknown:
+        sys.exit(__doc__)
     names = [a for a in args if not a.startswith("--")]
     patches = sorted(glob.glob(os.path.join(VERIF, "selftest", "benign", "*.diff")))
     if names:
